@@ -12,7 +12,8 @@ THEOREMS = ["C16_include_flattens", "C16_include_moved", "C16_fuel_monotone", "C
             "C16_invisible_block", "C16_blank_lines", "C16_blank_lines_at_top", "C16_line_comment", "C16_line_comment_at_top",
             "C16_block_comment", "C16_block_comment_at_top", "C16_indentation_at_top", "C16_indentation",
             "C16_line_replacement", "C16_trailing_blanks", "C16_eol_comment", "C16_line_tail_at_top",
-            "C16_case_scan", "C16_case_number", "C16_case_parse_partial"]
+            "C16_case_scan", "C16_case_number", "C16_case_parse_partial", "C16_case_source",
+            "C16_blank_insertion", "C16_blank_insertion_columns"]
 
 
 def instantiate(gen_q):
@@ -31,7 +32,11 @@ def instantiate(gen_q):
     )
     text += ("Lemma live_lexicon16_kw : kw_ok live_lexicon16 = true.\nProof. vm_compute. reflexivity. Qed.\n"
              "Definition C16_case_scan_live := fun file s s' toks lines => C16_case_scan live_lexicon16 file s s' toks lines live_lexicon16_kw.\n")
-    return text, ["C16_trailing_blanks_live_ok", "C16_eol_comment_live_ok", "C16_case_scan_live"]
+    text += ("From A816 Require Import Proofs.ScannerBlank1 Proofs.ScannerBlank2.\n"
+             "Lemma live_lexicon16_alpha : lexicon_alpha live_lexicon16 = true.\nProof. vm_compute. reflexivity. Qed.\n"
+             "Definition C16_blank_insertion_live := fun file a u w v b ta ea la t1 e1 l1 => "
+             "C16_blank_insertion live_lexicon16 file a u w v b ta ea la t1 e1 l1 live_lexicon16_ok live_lexicon16_alpha.\n")
+    return text, ["C16_trailing_blanks_live_ok", "C16_eol_comment_live_ok", "C16_case_scan_live", "C16_blank_insertion_live"]
 # model-tie modules whose correspondence is part of this property's check (parts of the model its theorems rest on)
 TIES = ['SCAN']
 RULE = ("valid programs (generated + the repository's sample sources) x 6 random compositions of the listed presentation "
@@ -54,15 +59,18 @@ PROVED_NOTE = ("proved: an included file becomes a block that code generation fl
                "LETTER CASE at text level: two texts equal up to ASCII letter case whose differences avoid directive keywords and the "
                "base marker of numerals scan to the same token types at the same positions with values equal up to case (lock-step "
                "simulation through every lexer); a re-cased hexadecimal numeral has the same value; the parser's instruction statement "
-               "maps such token lists to the same node up to mnemonic case (partial: not lifted through the statement loops). "
-               "Correspondence-only (partial): spaces inside operands of arbitrary lines (proved for expressions and data/instruction "
-               "lines in C06Lex/C07Text; reducible by C16_line_replacement otherwise) - metamorphic runs and the scanner tie (SCAN).")
+               "maps such token lists to the same node up to mnemonic case; END TO END (C16_case_source): such texts assemble to the same "
+               "blocks and labels / same errors (generic simulation of parser, code generation and passes). BLANKS INSIDE A LINE: spaces "
+               "inserted at a gap between tokens (after/before , ( ) [ ] # operators =, after a label or mnemonic) change no token and move "
+               "the following columns by their number (decidable conservative gap condition, necessity examples; spaces only - a tab inside "
+               "an operand is rejected by the scanner). Correspondence-only: that the code computes what the models compute; gaps the "
+               "conservative condition excludes (lines containing a quote or `;` before the gap); included files in the case theorem.")
 MANIFEST = {
     "text": ("Coq theorems on include flattening, comment skipping and case folding in the parser / code-generation models; "
              "scanner layout-insensitivity is checked metamorphically: re-laid-out programs must give identical blocks, offsets "
              "and symbol values on the implementation, and the composed model must agree with the implementation on the "
              "re-laid-out text."),
-    "note": ("Partial: spaces inside operands of arbitrary lines, and the lifting of the case theorem from the instruction statement to whole programs, are validated by metamorphic correspondence, not proved (comment lines, blank lines, indentation, trailing blanks and end-of-line comments are proved). "
+    "note": ("Every clause has a theorem; the gap condition for inserted blanks is conservative and the end-to-end case theorem excludes included files (both also validated by metamorphic correspondence) (comment lines, blank lines, indentation, trailing blanks and end-of-line comments are proved). "
              "Trusted: Coq kernel/vm_compute, harness. No axioms."),
     "technique": "Coq proof (include flattening, comment skip, case folding) + metamorphic layout twins + model correspondence",
 }
